@@ -47,6 +47,25 @@ theorem index_serial {α : Type} (f : Nat → α) (key : Nat → Nat) (sched : L
   have h := Keyed.inv_run f key sched Keyed.init (Keyed.inv_init f key)
   exact ⟨h.fin, h.runs_le⟩
 
+/-- stdin's read-once (`stdOsStdin.read`, the mutex spans io.ReadAll): whatever the interleaving and however the
+input is chopped into Reads, every caller gets the WHOLE input and the reader is drained by at most one caller. -/
+theorem stdin_serial (chunks : List (List Nat)) (sched : List Nat) :
+    let s := Stream.run true sched (Stream.init chunks)
+    (∀ t, s.pc t = .fin → s.res t = some chunks.flatten) ∧ s.runs ≤ 1 := by
+  have h := Stream.inv_run chunks.flatten sched (Stream.init chunks) (Stream.inv_init chunks)
+  exact ⟨h.fin, h.runs_le⟩
+
+/-- the premise "the lock is held during the computation" is necessary for `index_serial` / `stdin_serial`: with the
+narrowed region (lock, fetch, unlock, compute, re-lock, store) — in which every field access is still locked, so
+there is no data race to detect — two first callers both compute (the computation runs twice), and over a
+consuming resource they get different results, neither of them the whole input. -/
+theorem index_serial_false_if_lock_released :
+    ∃ (chunks : List (List Nat)) (sched : List Nat),
+      let s := Stream.run false sched (Stream.init chunks)
+      s.pc 0 = .fin ∧ s.pc 1 = .fin ∧ s.runs = 2 ∧
+      s.res 0 = some [104, 105] ∧ s.res 1 = some [33] ∧ chunks.flatten = [104, 105, 33] := by
+  exact ⟨[[104, 105], [33]], [0, 0, 1, 1, 0, 1, 0, 0, 0, 0, 1, 1, 1, 1], by decide⟩
+
 /-- importCache.getOrAdd (before and after the repair): every caller that returned got either the value of the
 successful `add` for its key (which is then the cached one, so all such callers agree), or the error / nil of
 the `add` call it made itself; per key at most one `add` call ever returned a value. -/
@@ -338,6 +357,19 @@ theorem lazyState_rejects_unrepaired :
     Expected.classify ("captured", "rel.GenericSet.Where/Where:err", [[]], [], ["GenericSet.Where"]) = none ∧
     Expected.classify ("captured", "rel.positionalRelation.Where/Where:err", [[]], [],
       ["positionalRelation.Where"]) = none := by decide
+
+/-- the compute-and-store table extracted from the current sources is the expected one -/
+theorem lazyCompute_regenerated : Arrai.Facts.Generated.lazyCompute = Expected.lazyCompute := by decide
+
+/-- in every mutex-guarded compute-and-store function the Lock…Unlock region spans every call the stored value is
+computed from (io.ReadAll in stdOsStdin.read and mustReadEmbeddedFile, fn() in computeIndex) — the premise of
+`index_serial` / `stdin_serial` — except in importCache.getOrAdd, whose in-flight-marker protocol is proved on
+its own.  Narrowing such a region changes the table and breaks `lazyCompute_regenerated`. -/
+theorem lazyCompute_lock_spans_computation : ∀ r ∈ Expected.lazyCompute, Expected.computeOK r = true := by decide
+
+/-- the row a narrowed stdin region would produce is rejected -/
+theorem lazyCompute_rejects_narrowed :
+    Expected.computeOK ("syntax.stdOsStdin.bytes", "stdOsStdin.read", "io.ReadAll", false) = false := by decide
 
 /-- the discipline of the model that a classified row stands for (`ids` names its Once / mutex) -/
 def toDisc (id : Nat) : Expected.Kind → HB.Disc
